@@ -315,3 +315,75 @@ def gen_generic_case(r):
     if r.random() < 0.5:
         case["pos"] = r.choice(SCALARS)
     return case
+
+
+# ---- cases aimed at "fails late, after a partial coercion/annotation"
+def _leaves(ts):
+    out = []
+
+    def go(t, path):
+        if isinstance(t, list):
+            for i, x in enumerate(t[1]):
+                go(x, [*path, i])
+        else:
+            out.append(path)
+    for i, t in enumerate(ts):
+        go(t, [i])
+    return out
+
+
+def _get(ts, path):
+    t = ts[path[0]]
+    for i in path[1:]:
+        t = t[1][i]
+    return t
+
+
+def _set(ts, path, new):
+    ts = json.loads(json.dumps(ts))
+    if len(path) == 1:
+        ts[path[0]] = new
+        return ts
+    t = ts[path[0]]
+    for i in path[1:-1]:
+        t = t[1][i]
+    t[1][path[-1]] = new
+    return ts
+
+
+def gen_sensitive_case(r):
+    """The target variant comes late; earlier variants agree with it up to an earlier leaf whose
+    numeric kind differs (so checking it annotates / coerces the argument) and disagree at a
+    later leaf (so the attempt fails after that)."""
+    case = {"locals": [r.choice(SCALARS) for _ in range(r.choice([0, 1, 2]))], "decls": [], "overs": [],
+            "pos": None, "_helpers": [], "_nested_overs": []}
+    if r.random() < 0.5:
+        case["decls"].append({"ins": [r.choice(SCALARS) for _ in range(r.choice([0, 1]))], "out": r.choice(["nat", "int", "float"])})
+        case["_helpers"].append(0)
+    while True:
+        ins = [rand_ty(r, p_tuple=0.45) for _ in range(r.choice([1, 2, 2, 3]))]
+        lv = _leaves(ins)
+        if len(lv) >= 2:
+            break
+    outs = [r.choice(SCALARS) for _ in range(2)]
+    n_before = r.choice([1, 1, 2])
+    vs = []
+    for _ in range(n_before):
+        p, q = sorted(r.sample(range(len(lv)), 2))
+        early = _set(ins, lv[p], r.choice(["nat", "int", "float"]))
+        tq = _get(early, lv[q])
+        early = _set(early, lv[q], r.choice([x for x in SCALARS if not widens(tq, x)] or ["bool"]))
+        case["decls"].append({"ins": early, "out": r.choice(outs)})
+        vs.append(len(case["decls"]) - 1)
+    case["decls"].append({"ins": ins, "out": r.choice(outs)})
+    vs.append(len(case["decls"]) - 1)
+    if r.random() < 0.4:
+        case["decls"].append({"ins": [mutate_ty(r, t) for t in ins], "out": r.choice(outs)})
+        vs.append(len(case["decls"]) - 1)
+    case["overs"].append(vs)
+    args = [fit_expr(r, case, t, 0) for t in ins]
+    case["call"] = ["call", ["o", 0], args]
+    if r.random() < 0.4:
+        case["pos"] = case["decls"][vs[n_before]]["out"]
+    del case["_helpers"], case["_nested_overs"]
+    return case
